@@ -289,7 +289,7 @@ func (c *c13ctx) emitTuple(name string) {
 // ---------------------------------------------------------------- expressions
 
 func (c *c13ctx) useVar(name, sort string) string {
-	id := strings.NewReplacer(".", "_", "(", "_", ")", "", "[", "_", "]", "").Replace(name)
+	id := "g_" + strings.NewReplacer(".", "_", "(", "_", ")", "", "[", "_", "]", "").Replace(name)
 	key := id + ":" + sort
 	if !c.freeS[key] {
 		c.freeS[key] = true
@@ -319,7 +319,32 @@ func (c *c13ctx) intType(e ast.Expr) (signed bool, width int) {
 		return true, 64
 	}
 	tv, ok := c.info.Types[e]
-	if !ok || tv.Type == nil {
+	if !ok || tv.Type == nil || tv.Type == types.Typ[types.Invalid] {
+		// inside the argument of a call go/types could not resolve (bits.Len): type by structure
+		switch x := e.(type) {
+		case *ast.ParenExpr:
+			return c.intType(x.X)
+		case *ast.BasicLit:
+			if x.Kind == token.INT {
+				return true, 64
+			}
+		case *ast.BinaryExpr:
+			if _, isLit := x.X.(*ast.BasicLit); isLit && x.Op != token.SHL && x.Op != token.SHR {
+				return c.intType(x.Y)
+			}
+			return c.intType(x.X)
+		case *ast.CallExpr:
+			if id, ok := x.Fun.(*ast.Ident); ok && len(x.Args) == 1 {
+				if id.Name == "len" {
+					return true, 64
+				}
+				if b, ok := types.Universe.Lookup(id.Name).(*types.TypeName); ok {
+					if s, w, ok := intKind(b.Type()); ok {
+						return s, w
+					}
+				}
+			}
+		}
 		c.fail(e, "no type for %s", c.txt(e))
 	}
 	s, w, ok := intKind(tv.Type)
@@ -357,6 +382,12 @@ func (c *c13ctx) iexpr(e ast.Expr) string {
 	switch x := e.(type) {
 	case *ast.ParenExpr:
 		return c.iexpr(x.X)
+	case *ast.BasicLit:
+		if x.Kind == token.INT {
+			if v := constant.MakeFromLiteral(x.Value, token.INT, 0); v.Kind() == constant.Int {
+				return "(" + v.ExactString() + ")"
+			}
+		}
 	case *ast.Ident:
 		c.intType(x)
 		return c.useVar(x.Name, "Z")
@@ -389,6 +420,13 @@ func (c *c13ctx) iexpr(e ast.Expr) string {
 					c.fail(e, "conversion to %s", tv.Type)
 				}
 				return c.wrapAs(e, c.iexpr(x.Args[0]))
+			}
+			if id, ok := x.Fun.(*ast.Ident); ok && id.Name != "len" {
+				if b, ok := types.Universe.Lookup(id.Name).(*types.TypeName); ok {
+					if _, _, ok := intKind(b.Type()); ok {
+						return c.wrapAs(e, c.iexpr(x.Args[0]))
+					}
+				}
 			}
 			if id, ok := x.Fun.(*ast.Ident); ok && id.Name == "len" {
 				return c.useVar("len("+c.txt(x.Args[0])+")", "Z")
@@ -687,7 +725,7 @@ func genC13(repo string) (out string, err error) {
 		return "", fmt.Errorf("level/chunk.go not found")
 	}
 	c.out.WriteString("(* GENERATED by tools/gotrans (c13.go) from level/chunk.go - do not edit *)\n")
-	c.out.WriteString("From Coq Require Import ZArith Bool List String.\nFrom GoMC Require Import Base.GoInt Gen.Funcs Model.C13_syntax.\nImport ListNotations.\nLocal Open Scope Z_scope.\nLocal Open Scope bool_scope.\nLocal Open Scope string_scope.\n\n")
+	c.out.WriteString("From Coq Require Import ZArith Bool List String.\nFrom GoMC Require Import Base.GoInt Gen.Funcs Model.C13_syntax.\nImport ListNotations.\nLocal Open Scope string_scope.\nLocal Open Scope Z_scope.\nLocal Open Scope bool_scope.\n\n")
 
 	// ---- every function body
 	var names []string
@@ -821,7 +859,7 @@ func genC13(repo string) (out string, err error) {
 					op = "-"
 				}
 				ops = append(ops, s.Tok.String())
-				fmt.Fprintf(&c.out, "(* Section_SetBlock: %s *)\nDefinition c13_Section_SetBlock_%s (s_BlockCount : Z) : Z :=\n  (wrap_s %d (s_BlockCount %s 1)).\n\n", c.txt(s), map[string]string{"+": "inc", "-": "dec"}[op], w, op)
+				fmt.Fprintf(&c.out, "(* Section_SetBlock: %s *)\nDefinition c13_Section_SetBlock_%s (g_s_BlockCount : Z) : Z :=\n  (wrap_s %d (g_s_BlockCount %s 1)).\n\n", c.txt(s), map[string]string{"+": "inc", "-": "dec"}[op], w, op)
 			}
 			return true
 		})
